@@ -157,8 +157,12 @@ def checkNames (inRecs outRecs : Array NameRec) (renamed : Bool) : List String :
   for r in inRecs do
     let cands := outRecs.filter (fun o => key o == key r)
     if cands.isEmpty then out := out ++ [s!"name record {key r} missing from output"]
-    else if !(cands.any (fun o => o.str == r.str)) ∧ !(renamed ∧ derived.contains r.nameId) then
-      out := out ++ [s!"name record {key r} content changed"]
+    else
+      -- renaming replaces the family-derived names of the ENGLISH (or language-neutral) records only: Unicode platform,
+      -- Macintosh Roman / English, Microsoft with an English language id; names in other languages are kept (warning 5503)
+      let english := r.platform == 0 ∨ (r.platform == 1 ∧ r.encoding == 0 ∧ r.language == 0) ∨ (r.platform == 3 ∧ r.language % 1024 == 9)
+      if !(cands.any (fun o => o.str == r.str)) ∧ !(renamed ∧ english ∧ derived.contains r.nameId) then
+        out := out ++ [s!"name record {key r} content changed"]
   let usedIds := inRecs.toList.map (·.nameId)
   for o in outRecs do
     if (inRecs.find? (fun r => key r == key o)).isNone then
